@@ -14,7 +14,7 @@
 EXTENDS Merge, TraceLib
 VARIABLES l, fs, ctx
 
-EmptyFs == [names |-> {}, inodes |-> <<>>, handles |-> {}, links |-> {}]
+EmptyFs == [names |-> {}, inodes |-> <<>>, handles |-> {}, links |-> {}, mounts |-> {}]
 NoCtx == [old |-> EmptyFs, cset |-> <<>>, offset |-> <<>>, x |-> Acc0(EmptyFs), prefixes |-> FALSE]
 
 ReportP(tid, i, bad) == \A c \in bad : PrintT(<<"VERDICT", tid, i, c[1], JoinPath(c[2])>>)
